@@ -1,5 +1,9 @@
 CONSTANT PresentAt <- TracePresentAt
 CONSTANT StaleReuse = FALSE
+CONSTANT SwapShorter = FALSE
+CONSTANT DefaultBatch = 10
+CONSTANT SwitchAt = 1000
+CONSTANT AdaptAt = 5000
 CONSTANT SharedHandle = FALSE
 INIT Init
 NEXT Next
